@@ -179,20 +179,21 @@ theorem getattrF_built (c : List Level) (x : Name) :
     · have : c.length - j = 0 := by omega
       simp [getattrF, builtHeap_nss_get, hj, this, firstIdx]
 
-theorem nsattrF_built (c : List Level) (x : Name) :
-    ∀ f j, c.length - j ≤ f →
-      nsattrF c (builtHeap c.length).nss f j x = firstAttr c j x := by
+/-- `.attr` on the heap as it is when `k` templates are attached (during or after the inherit phase) -/
+theorem nsattrF_prefix (c : List Level) (k : Nat) (x : Name) :
+    ∀ f j, k - j ≤ f →
+      nsattrF c (builtHeap k).nss f j x = firstAttrUpTo c k j x := by
   intro f
   induction f with
   | zero =>
     intro j h
-    have : c.length - j = 0 := by omega
-    simp [nsattrF, firstAttr, this, firstIdx]
+    have : k - j = 0 := by omega
+    simp [nsattrF, firstAttrUpTo, this, firstIdx]
   | succ f ih =>
     intro j h
-    by_cases hj : j < c.length
-    · have e : c.length - j = (c.length - (j + 1)) + 1 := by omega
-      unfold firstAttr
+    by_cases hj : j < k
+    · have e : k - j = (k - (j + 1)) + 1 := by omega
+      unfold firstAttrUpTo
       rw [e]
       simp only [nsattrF, builtHeap_nss_get, hj, if_true, firstIdx, builtNS]
       have hb : ((c[j]?).bind fun l => List.lookup x l.attrs) = attrAt c j x := rfl
@@ -201,14 +202,22 @@ theorem nsattrF_built (c : List Level) (x : Name) :
       case inr => simp only [ha]; simp [ha]
       case inl =>
         simp only [ha, Option.isSome_none]
-        by_cases h1 : j + 1 < c.length
+        by_cases h1 : j + 1 < k
         · simp only [h1, if_true]
           rw [ih (j + 1) (by omega)]
-          simp [firstAttr]
-        · have : c.length - (j + 1) = 0 := by omega
+          simp [firstAttrUpTo]
+        · have : k - (j + 1) = 0 := by omega
           simp [h1, this, firstIdx]
-    · have : c.length - j = 0 := by omega
-      simp [nsattrF, builtHeap_nss_get, hj, firstAttr, this, firstIdx]
+    · have : k - j = 0 := by omega
+      simp [nsattrF, builtHeap_nss_get, hj, firstAttrUpTo, this, firstIdx]
+
+theorem firstAttrUpTo_length (c : List Level) (j : Nat) (x : Name) :
+    firstAttrUpTo c c.length j x = firstAttr c j x := rfl
+
+theorem nsattrF_built (c : List Level) (x : Name) :
+    ∀ f j, c.length - j ≤ f →
+      nsattrF c (builtHeap c.length).nss f j x = firstAttr c j x :=
+  fun f j h => by rw [nsattrF_prefix c c.length x f j h, firstAttrUpTo_length]
 
 /-- on the heap the inherit phase builds, the runtime's name resolution is the specification's -/
 theorem heapDispatch_built (c : List Level) :
@@ -227,6 +236,7 @@ theorem heapDispatch_built (c : List Level) :
     · rw [builtHeap_nss_length, getattrF_built c x c.length ns (by omega)]
       rfl
   · funext ns x
+    simp only [NSAttr.read, nsAttrObj]
     rw [builtHeap_nss_length, nsattrF_built c x c.length ns (by omega)]
 
 /-! ### `firstIdx` -/
